@@ -183,6 +183,9 @@ harness(void)
 	u8  ver  = copy[0];
 	u16 ulen = (u16) (copy[4] | (copy[5] << 8));
 	int live0 = env_msg_live;
+#ifdef FAILMSG
+	env_msg_fail_at = env_msg_allocs; /* C20: the message for the payload cannot be allocated */
+#endif
 	nni_aio *ra = udp_rx_posted;
 	udp_rx_posted = NULL;
 	nni_aio_finish(ra, 0, NB);
@@ -192,6 +195,16 @@ harness(void)
 	size_t carried = NB >= 8 ? NB - 8 : 0;
 #if OP == 0
 	int accept = wellformed && !FROM && ulen <= carried && ulen <= RCVMAX;
+#ifdef FAILMSG
+	if (accept) {
+		/* best-effort loss of that one message: nothing delivered, nothing leaked, the connection and the endpoint carry on */
+		CHECK(env_msg_failed, "harness: the allocation was attempted");
+		CHECK(nni_lmq_len(&pp.rx_mq) == 0 && env_msg_live == live0, "the datagram whose message could not be allocated is dropped without a leak");
+		CHECK(!pp.closed && !kpipe[0].closed, "the connection stays up");
+		CHECK(ep.rx_payload != NULL && nni_msg_len(ep.rx_payload) <= RCVMAX, "the endpoint keeps a usable receive buffer");
+		WITNESS("allocation failure");
+	} else
+#endif
 	if (accept) {
 		nni_msg *m = NULL;
 #ifdef WAITER
